@@ -52,8 +52,14 @@ inductive V where
   | flt (i : Int)            -- the float `float(i)` (integral floats: the twins of ints and bools)
   | str (s : String)
   | obj (cls : Nat)          -- instance of a user class; 0: plain `object()`, 1: `__eq__` always True
-                             -- (like `mock.ANY`), 2: `__eq__` raises, 3: `__eq__` returns an object without a truth value
+                             -- (like `mock.ANY`), 2: `__eq__` raises, 3: `__eq__` returns an object without a truth value,
+                             -- 4: `__bool__` raises (array-like: "the truth value … is ambiguous")
   | ref (id : Nat) (v : V)   -- THE object number `id` (its value is `v`): two occurrences are the same Python object
+  | sent (stop : Bool)       -- glom's `SKIP` (`false`) / `STOP` (`true`) objects AS DATA: an item of the source, the
+                             -- result of a `map` function.  Only `Iter(subspec)` itself gives them a meaning;
+                             -- everywhere else they are ordinary (falsy, hashable) values
+  | gen                      -- a live iterator object that turned up as a value (`split(sep, 0)` hands out `[src]`,
+                             -- `first(default=T)` the stream itself); not looked into
   deriving Repr, Inhabited
 
 mutual
@@ -67,6 +73,8 @@ def V.beq : V → V → Bool
   | .str a, .str b => a == b
   | .obj a, .obj b => a == b
   | .ref i a, .ref j b => i == j && V.beq a b
+  | .sent a, .sent b => a == b
+  | .gen, .gen => true
   | _, _ => false
 def V.beqL : List V → List V → Bool
   | [], [] => true
@@ -94,6 +102,8 @@ def V.truthy : V → Bool
   | .str s => !s.isEmpty
   | .obj _ => true
   | .ref _ v => v.truthy
+  | .sent _ => false         -- boltons' `Sentinel.__bool__` is `False`
+  | .gen => true
 
 mutual
 /-- `hash(x)` does not raise -/
@@ -127,6 +137,7 @@ def V.is : V → V → Bool
   | .bool a, .bool b => a == b
   | .str a, .str b => a == b && decide (a.length ≤ 1)
   | .tup [], .tup [] => true
+  | .sent a, .sent b => a == b
   | _, _ => false
 
 /-- the number a value is in Python's numeric tower (`True == 1 == 1.0`) -/
@@ -186,6 +197,65 @@ inductive Yield where
 abbrev Fn := V → Except Err V
 abbrev BaseFn := V → Except Err Yield
 
+/-- `bool(x)` as an operation that can fail: an instance of class 4 raises -/
+def V.truthyE (v : V) : Except Err Bool :=
+  match v.strip with
+  | .obj 4 => .error "ValueError"
+  | _ => .ok v.truthy
+
+/-! ### keys as the stages see them
+
+  The stages of `Kind` take their key as a function whose RESULT is read for its truth value
+  (`Core.push`: `y.truthy`).  What a user's key `f` is for each stage: -/
+
+/-- `takewhile` / `dropwhile` / `first` / a callable separator of `split`: the result of the key goes through
+    `bool()` (itertools, `filter`, `if sep_func(s)`), so a result without a truth value raises -/
+def Fn.asPredicate (f : Fn) : Fn := fun x =>
+  match f x with
+  | .error e => .error e
+  | .ok y => (match y.truthyE with | .ok b => .ok (.bool b) | .error e => .error e)
+
+/-- `filter(key)` is `ifilter(lambda t: glom(t, Check(key, default=SKIP)) is not SKIP, it)`: the item is kept iff the
+    check passes AND the item itself is not the SKIP object (a passing `Check` returns its target).  The check's
+    validator is `bool(key result)`; a result whose `bool()` raises fails the check like a falsy one — the item is
+    dropped silently, where `takewhile` / `dropwhile` raise. -/
+def Fn.asFilterKey (f : Fn) : Fn := fun x =>
+  match f x with
+  | .error e => .error e
+  | .ok y =>
+    match y.truthyE with
+    | .ok true => .ok (.bool (match x with | .sent false => false | _ => true))
+    | _ => .ok (.bool false)
+
+/-- what a failing `Check` gives: it raises `CheckError` (no default), or returns its default — `SKIP` drops the item,
+    anything else KEEPS it (the filter only asks "is it SKIP?") -/
+inductive CheckFail where
+  | raises
+  | skip
+  | keep
+
+/-- `filter(Check(validate=v, default=…))`: a `Check` instance is used as the check itself.  The validator fails when
+    it returns the object `False` (`res is False`: a falsy `0` passes!) or raises. -/
+def Fn.ofCheck (validate : Fn) (onFail : CheckFail) : Fn := fun x =>
+  let failed : Bool := match validate x with
+    | .ok (.bool false) => true
+    | .ok _ => false
+    | .error _ => true
+  if failed then
+    (match onFail with | .raises => .error "CheckError" | .skip => .ok (.bool false) | .keep => .ok (.bool true))
+  else .ok (.bool (match x with | .sent false => false | _ => true))
+
+/-- what `_iterate` makes of the value `yld` the subspec gave (for `Iter()` the item itself): the SKIP
+    object → `continue`, the STOP object → `return`, anything else is a candidate item (which the
+    sentinel test may still stop at).  This is the ONLY place where SKIP / STOP mean something. -/
+def Yield.ofV : V → Yield
+  | .sent false => .skip
+  | .sent true => .stop
+  | v => .val v
+
+/-- `Iter(f)`: the subspec `f` as the base stage sees it -/
+def BaseFn.ofFn (f : Fn) : BaseFn := fun x => (f x).map Yield.ofV
+
 /-- the `sep` argument of `split_iter`: `None` (groups separators), a scalar, an
     iterable of separators (turned into a frozenset), or a callable (`sep_func = sep`: called
     on the item itself, not evaluated as a glom spec; its result is used for its truth value) -/
@@ -208,18 +278,23 @@ inductive Kind where
   | split (sep : Sep) (maxsplit : Option Nat)
   | unique (key : Fn)
   | flatten
+  | raises (e : Err) (atInit : Bool)   -- a stage made from arguments its iterator function rejects: `islice(it, -1)`,
+                                       -- `tee(it, -1)` raise when `glomit` calls the callback (`atInit`); the generator
+                                       -- `chunked_iter(it, 0)` raises at its first `next()` — before it pulls anything
+  | wrapIter                           -- `split_iter(it, sep, maxsplit=0)`: `yield [src]` — ONE item, a list holding the
+                                       -- upstream iterator object itself, nothing pulled
 
 /-- arguments the real code accepts and this model covers: `islice` rejects `step = 0`,
-    `chunked_iter` rejects `size ≤ 0`, `windowed_iter` needs `size ≥ 1`, `maxsplit = 0`
-    makes `split_iter` yield the *iterator object* (outside the value domain),
-    separator sets contain hashable values only, a single separator is an atom
+    `chunked_iter` rejects `size ≤ 0`, `windowed_iter` needs `size ≥ 1` (what the builder methods make of
+    other values — `Model/C17Args.lean` — are other kinds: `raises`, `wrapIter`, the empty `slice`);
+    `split … (some 0)` is a maxsplit that is used up from the start (a NEGATIVE `maxsplit`; `maxsplit = 0`
+    is `wrapIter`); separator sets contain hashable values only, a single separator is an atom
     (`None`, a number, a string) -/
 def Kind.wf : Kind → Bool
   | .slice _ _ step => step ≥ 1
   | .chunked size _ => size ≥ 1
   | .windowed size => size ≥ 1
-  | .split sep m => m != some 0 &&
-    (match sep with | .set vs => vs.all V.hashable | .scalar v => v.isAtom | _ => true)
+  | .split sep _ => (match sep with | .set vs => vs.all V.hashable | .scalar v => v.isAtom | _ => true)
   | _ => true
 
 /-- dynamic state of a stage.  `buf`: the open chunk / the window / `cur_group` / the
@@ -328,6 +403,8 @@ def Core.push (c : Core) (x : V) : List V × Core × Status :=
     match x.asIter with
     | some ys => (ys, c, .go)
     | none => ([], c, .fail "TypeError")
+  | .raises e _ => ([], c, .fail e)          -- (never reached: the stage does not pull)
+  | .wrapIter => ([], c, .stop)
 
 /-- upstream is exhausted: what the stage still yields -/
 def Core.flush (c : Core) : List V :=
@@ -345,7 +422,24 @@ def Core.init (k : Kind) : Core :=
 /-- a stage that ends without ever pulling (`islice(it, 0)`) -/
 def Kind.initStopped : Kind → Bool
   | .slice start stop _ => (match sliceStatus stop 0 start with | .stop => true | _ => false)
+  | .raises _ _ => true
+  | .wrapIter => true
   | _ => false
+
+/-- what a stage that never pulls yields before it ends -/
+def Kind.initOut : Kind → List V
+  | .wrapIter => [.list [.gen]]
+  | _ => []
+
+/-- … and the exception it ends with, if it does -/
+def Kind.initErr : Kind → Option Err
+  | .raises e _ => some e
+  | _ => none
+
+/-- the exception the stage's callback raises when `glomit` calls it (the chain is built eagerly, inside `glom()`) -/
+def Kind.glomitErr : Kind → Option Err
+  | .raises e true => some e
+  | _ => none
 
 /-- items `windowed_iter` pulls while `glomit` runs (advancing its tees) -/
 def Kind.primeCount : Kind → Nat
@@ -361,7 +455,8 @@ structure StageSt where
   err : Option Err := none
 
 def StageSt.init (k : Kind) : StageSt :=
-  { core := Core.init k, stopped := k.initStopped }
+  { core := Core.init k, out := if k.initStopped then k.initOut else [],
+    stopped := k.initStopped && k.initErr.isNone, err := if k.initStopped then k.initErr else none }
 
 inductive Act where
   | emit (v : V)
@@ -713,6 +808,11 @@ def BHeap.addOp (fwd : Bool) (h : BHeap) (self : Nat) (e : Entry) : BHeap × Nat
 def BHeap.history (fwd : Bool) (h : BHeap) : List (Nat × Entry) → BHeap
   | [] => h
   | (i, e) :: r => ((h.addOp fwd i e).1).history fwd r
+
+/-- chaining: `spec.m₁(…).m₂(…)…` starting at the object `i` — every call on the object the
+    previous call returned -/
+def BHeap.chain (fwd : Bool) (h : BHeap) (i : Nat) (es : List Entry) : BHeap × Nat :=
+  es.foldl (fun (acc : BHeap × Nat) e => acc.1.addOp fwd acc.2 e) (h, i)
 
 /-! ### `Invoke` builder methods (`glom/core.py`)
 
